@@ -194,10 +194,14 @@ def programs(tier):
     for slot in SLOTS:
         for sc in s2:
             progs.append({slot: sc})
+    # thorough: full 2-scripts over the first-generation slots and actions (f, g, g2, h, m, K); the later additions
+    # (r, ar, K2) take part in the pairs with 1-scripts as in the quick tier
+    late = ("r.pre", "r.body", "ar.pre", "ar.body", "K2.init")
+    s2_core = [sc for sc in s2 if "r" not in sc]
     for a, b in itertools.combinations(SLOTS, 2):
-        if tier == "thorough":
-            for sa in s2:
-                for sb in s2:
+        if tier == "thorough" and a not in late and b not in late:
+            for sa in s2_core:
+                for sb in s2_core:
                     progs.append({a: sa, b: sb})
         else:
             for sa in s1:
@@ -240,7 +244,7 @@ def programs(tier):
                 for sb in [["ar"], ["self.m"], ["f"]]:
                     progs.append({a: sa, b: sb})
     if tier == "thorough":
-        for a, b, c in itertools.combinations(SLOTS, 3):
+        for a, b, c in itertools.combinations([sl for sl in SLOTS if sl not in ("ar.pre", "ar.body", "K2.init")], 3):
             small = [[x] for x in ("f", "g", "r", "self.m", "other.m")]
             for sa in small:
                 for sb in small:
